@@ -36,6 +36,7 @@ def load_known_findings():
 class UnitRun:
     def __init__(self, name):
         self.name = name
+        self.auto = []
         self.unit = None
         self.text = ''
         self.linemap = []
@@ -92,12 +93,15 @@ def _strip_comments(s):
     return re.sub(r'//[^\n]*', '', s)
 
 
-def prepare_unit(name, scratch, with_twins=True, mutate=None):
+def prepare_unit(name, scratch, with_twins=True, mutate=None, unit=None):
     """build + generate; returns UnitRun with text written to scratch"""
     ur = UnitRun(name)
-    mod = importlib.import_module('units.' + name)
-    importlib.reload(mod)
-    U = mod.build()
+    if unit is None:
+        mod = importlib.import_module('units.' + name)
+        importlib.reload(mod)
+        U = mod.build()
+    else:
+        U = unit
     ur.unit = U
     text, linemap = U.generate()
     # canary + vacuity twins appended before the closing of verus!{}
@@ -132,12 +136,80 @@ def run_unit(name, scratch, mutate=None, quiet=False):
         return ur
     U = ur.unit
     res = V.run_verus(ur.path, scratch, rlimit=getattr(U, 'rlimit', None), timeout=getattr(U, 'timeout', 900))
+    # a body under contract may call a function of /repo that the unit does not list (new helper
+    # introduced by an edit): pull it in verbatim, WITHOUT a contract, and try again.
+    auto = []
+    rounds = 0
+    while res.fatal and rounds < 6:
+        missing = set(re.findall(r"no method named `(\w+)` found for (?:struct|enum|reference) `&?(?:mut )?(\w+)", res.fatal))
+        missing |= {(m, None) for m in re.findall(r"cannot find function `(\w+)` in this scope", res.fatal)}
+        missing |= {(m, t) for t, m in re.findall(r"no function or associated item named `(\w+)` found for (?:struct|enum) `(\w+)`", res.fatal)}
+        added = False
+        for name, ty in sorted(missing, key=str):
+            if any(a[0] == name for a in auto):
+                continue
+            if _auto_include(name, ty, U):
+                auto.append((name, ty))
+                added = True
+        if not added:
+            break
+        rounds += 1
+        try:
+            ur2 = prepare_unit(name_of_unit(ur), scratch, mutate=mutate, unit=U)
+        except Undecided as ex:
+            ur.undecided.append('extraction: %s' % ex)
+            return ur
+        ur2.auto = auto
+        ur = ur2
+        res = V.run_verus(ur.path, scratch, rlimit=getattr(U, 'rlimit', None), timeout=getattr(U, 'timeout', 900))
+    ur.auto = auto
     ur.result = res
     if res.fatal:
         ur.undecided.append('verus: ' + res.fatal[:3000])
         return ur
     classify(ur)
     return ur
+
+
+def name_of_unit(ur):
+    return ur.name
+
+
+def _auto_include(fn, ty, U):
+    """find `fn` in the repo files the unit already reads and add it as an uncontracted entry"""
+    from .unit import Entry, ImplGroup
+    for rel, rf in list(U.files.items()):
+        if ty:
+            for blk in rf.find_all_impls(re.escape(ty) + r'(?:<[^{]*>)?'):
+                try:
+                    rf.find_fn(fn, (blk['body_open'] + 1, blk['end'] - 1), rf.depth[blk['body_open']] + 1)
+                except KeyError:
+                    continue
+                g = ImplGroup(re.escape(ty) + r'(?:<[^{]*>)?', rel)
+                g.methods.append(Entry(kind='fn', name=fn, file=rel, impl=g.header, qualname='%s::%s' % (ty, fn),
+                                       note='auto-included (called from a function under contract; no contract)'))
+                g.methods[0].auto = True
+                U.entries.insert(_last_code_index(U), g)
+                return True
+        else:
+            try:
+                rf.find_fn(fn, None, 0)
+            except KeyError:
+                continue
+            e = Entry(kind='fn', name=fn, file=rel, note='auto-included (no contract)')
+            e.auto = True
+            U.entries.insert(_last_code_index(U), e)
+            return True
+    return False
+
+
+def _last_code_index(U):
+    from .unit import Entry, ImplGroup
+    idx = 0
+    for i, e in enumerate(U.entries):
+        if isinstance(e, (Entry, ImplGroup)):
+            idx = i + 1
+    return idx
 
 
 def _entry_for_fn(ur, fnname, line):
@@ -199,11 +271,17 @@ def classify(ur):
             kind = 'proof-assertion'
         # for a precondition failure name the callee clause
         clause_text = ' '.join(s['hl'] or s['text'] for s in clause_sp)[:400]
-        rec = dict(unit=U.name, function=(entry.qualname if entry else fnname), kind=kind, message=e['message'],
+        calls_auto = None
+        if getattr(ur, 'auto', None) and enc:
+            body = '\n'.join(gen_lines[enc[0] - 1:enc[1]])
+            for an, aty in ur.auto:
+                if re.search(r'\b%s\s*\(' % re.escape(an), body) and fnname != an:
+                    calls_auto = an
+        rec = dict(unit=U.name, function=(entry.qualname if entry else fnname), kind=kind, message=e['message'], calls_auto=calls_auto,
                    tags=sorted(tags), label=label, gen_line=line, repo_file=(entry.file if entry else None),
                    repo_line=origin_line, site_text=' '.join((sp_site['hl'] or sp_site['text']).split())[:300],
                    clause=clause_text, rendered=e['rendered'], macro=sp_site.get('macro'),
-                   fn_props=sorted(entry.props) if entry else [],
+                   fn_props=sorted(entry.props) if entry else [], auto_fn=bool(entry is not None and getattr(entry, 'auto', False)),
                    in_sidecar_only=(entry is None))
         ur.errors.append(rec)
     if not canary_failed:
@@ -327,7 +405,13 @@ def report(prop, spec, tier, runs, findings, kf, t0, extra, status_extra):
         for rec in ur.errors:
             if not relevant(rec, prop, U):
                 continue
-            if is_violation_kind(rec):
+            if rec.get('auto_fn'):
+                undecided.append('%s::%s: %s inside a function of /repo that has no contract in the unit (auto-included helper): needs a contract, not a verdict' % (
+                    U.name, rec['function'], rec['kind']))
+            elif rec.get('calls_auto'):
+                undecided.append('%s::%s: %s failed, but the function now calls `%s`, a function of /repo that has no contract in the unit (new helper): cannot attribute' % (
+                    U.name, rec['function'], rec['kind'], rec['calls_auto']))
+            elif is_violation_kind(rec):
                 f = match_site_finding(rec, findings, prop)
                 if f:
                     known_hits.append((f, rec))
